@@ -62,7 +62,7 @@ from common import *  # noqa
 LAYER = "engine"
 PID = "ENG"
 
-ENG_FP = {"cloudsync/sync/manager.py": ["SyncManager._sync_one_entry", "SyncManager.pre_sync", "SyncManager.check_revivify", "SyncManager.sync",
+ENG_FP = {"cloudsync/sync/manager.py": ["SyncManager._sync_one_entry", "SyncManager._left_sync", "SyncManager._unlink_peer_that_left_sync", "SyncManager.pre_sync", "SyncManager.check_revivify", "SyncManager.sync",
                                         "SyncManager.path_conflict", "SyncManager.finished", "SyncManager.embrace_change",
                                         "SyncManager.handle_path_change_or_creation", "SyncManager.handle_rename", "SyncManager.handle_corrupt",
                                         "SyncManager.delete_synced", "SyncManager._handle_dir_delete_not_empty", "SyncManager.handle_hash_diff",
@@ -1764,6 +1764,12 @@ def gen_xcases(tier, seed):
 # table; the rest of the entry and of the oracle is drawn at random) + unfocused random cases
 
 CUR = "ced"
+UNLINK_HIT = {"ign": "nnnct", "c.oid": "T", "s.oid": "T", "s.p": "ced", "s.exs": ["e-"], "trback": "n", "c.ch": "T", "c.h": "dcde", "c.p": "dcde",
+              "c.exs": ["e-", "e-", "t-", "m-"]}
+UNLINK_NEAR = {"c.oid": "TTTF", "s.oid": "TTTF", "s.p": "cedns", "s.exs": ["e-", "e-", "e-", "t-", "u-", "c-", "ce", "m-", "l-"], "trback": "nnp",
+               "c.ch": "TTF", "c.fs": "FFFT", "c.h": "dcden", "c.p": "dcde"}
+UNLINK_BOTH = {"ign": "nnd", "l.oid": "T", "r.oid": "T", "l.p": "ced", "r.p": "ced", "l.exs": ["e-"], "r.exs": ["e-"], "o.trL": "n", "o.trR": "n",
+               "l.ch": "TF", "r.ch": "TF", "l.h": "de", "r.h": "de"}
 FOCUS = {
     "preds": [{}],
     "finished": [{}],
@@ -1818,11 +1824,14 @@ FOCUS = {
              {"ign": "n", "l.p": "d", "r.p": "d", "l.exs": ["e-"], "r.exs": ["e-"], "l.h": "e", "r.h": "e", "l.ch": "T", "r.ch": "T", "l.oid": "T", "r.oid": "T",
               "o.trL": "lg", "o.trR": "lg", "o.parentConfl": "F", "o.rdc": "F"},
              {"ign": "n", "l.p": "d", "r.p": "d", "l.exs": ["e-"], "r.exs": ["e-"], "l.ot": "d", "r.ot": "d", "l.h": "n", "r.h": "n", "l.ch": "T", "r.ch": "T",
-              "l.oid": "TTF", "r.oid": "T", "o.trL": "nlg", "o.trR": "lgp", "o.parentConfl": "F", "o.rdc": "F"}],
+              "l.oid": "TTF", "r.oid": "T", "o.trL": "nlg", "o.trR": "lgp", "o.parentConfl": "F", "o.rdc": "F"},
+             # a peer that left the sync root (its path no longer translates) while the other side has a change: unlinked by a split
+             UNLINK_HIT, UNLINK_NEAR, UNLINK_BOTH],
     "presync": [{}, {"ign": "di"}, {"ign": "i", "c.ch": "T", "c.p": "cn", "c.oid": "T"},
                 {"ign": "i", "c.ch": "T", "c.p": "cn", "c.oid": "T", "o.revOtherL": "F", "o.revOtherR": "F", "o.revInfoL": "p", "o.revInfoR": "p"}],
     "syncone": [{}, {"ign": "di"}, {"ign": "i", "c.ch": "T", "c.p": "cn", "c.oid": "T", "o.revOtherL": "F", "o.revOtherR": "F", "o.revInfoL": "p", "o.revInfoR": "p"},
-                {"ign": "n", "c.ch": "T", "c.oid": "T", "o.parentConfl": "F", "o.rdc": "F", "tr": "psalg"}],
+                {"ign": "n", "c.ch": "T", "c.oid": "T", "o.parentConfl": "F", "o.rdc": "F", "tr": "psalg"},
+                UNLINK_HIT, UNLINK_NEAR],
 }
 # relative weight of the methods in the sample
 OPS = [("preds", 3), ("finished", 1), ("split", 1), ("corrupt", 1), ("missing", 1), ("hashdiff", 3), ("deleteD", 2), ("deleteI", 1), ("rename", 3),
@@ -2310,6 +2319,9 @@ def _zwit(target):
 
 
 WITNESSES += [
+    # part 5 (section 16): the entry of the confinement defect — the fixed `sync` splits, nothing is written
+    ("pre_fix_sync_writes_peer_that_left", _wcase("sync", "L", "Tede-fTF", "Tdee-fFF", trL="n", trR="p"),
+     lambda out: out.startswith("F | split | ")),
     # part 4 (Props/Engine.lean section 15)
     ("rename_over_deletes_unseen_edit_when_unstamped", _zwit(_zre(W_SYNCED, W_SYNCED, "n", 0, (0, 0), (0, 0))),
      lambda out: out.split(" | ")[1:3] == ["rnR,doR", "conflict:renameConflict:LRF:-"]),
